@@ -28,24 +28,24 @@ func init() {
 	register(&Check{ID: "C01", Level: "model_checking", Run: func(c *Ctx) {
 		c.R.Trusted = codecTrusted
 		mcCodecCheck(c, func(v EdgeVerdict) string { return firstFlag(flagIf(!v.RT, "roundtrip"), flagIf(!v.Fast, "fastproj")) })
-		codecTraceRun(c, "rt", 12, 150, func(v CodecVerdict) bool {
+		codecTraceRun(c, "rt", 12, 300, func(v CodecVerdict) bool {
 			return v.Ev == "roundtrip" || v.Ev == "load" || strings.HasPrefix(v.Sig, "marshal:error") || v.Tag == "rt-history"
 		})
 	}})
 	register(&Check{ID: "C02", Level: "model_checking", Run: func(c *Ctx) {
 		c.R.Trusted = codecTrusted
 		mcCodecCheck(c, func(v EdgeVerdict) string { return flagIf(v.Fresh && !v.Enc, "detbytes") })
-		codecTraceRun(c, "det", 12, 150, func(v CodecVerdict) bool { return v.Ev == "marshal" })
+		codecTraceRun(c, "det", 12, 300, func(v CodecVerdict) bool { return v.Ev == "marshal" })
 	}})
 	register(&Check{ID: "C03", Level: "model_checking", Run: func(c *Ctx) {
 		c.R.Trusted = codecTrusted
 		mcCodecCheck(c, func(v EdgeVerdict) string { return firstFlag(flagIf(!v.Fresh, "decode"), flagIf(!v.Merge, "mergeopt")) })
-		codecTraceRun(c, "xform", 10, 120, func(v CodecVerdict) bool { return v.Ev == "unmarshal" })
+		codecTraceRun(c, "xform", 10, 250, func(v CodecVerdict) bool { return v.Ev == "unmarshal" })
 	}})
 	register(&Check{ID: "C04", Level: "model_checking", Run: func(c *Ctx) {
 		c.R.Trusted = codecTrusted
 		mcCodecCheck(c, func(v EdgeVerdict) string { return flagIf(v.Fresh && !v.Size, "size") })
-		codecTraceRun(c, "size", 12, 150, func(v CodecVerdict) bool {
+		codecTraceRun(c, "size", 12, 300, func(v CodecVerdict) bool {
 			return v.Ev == "size" || (v.Ev == "append" && v.Sig != "append:nil-receiver") // nil receivers: C09
 		})
 	}})
@@ -54,7 +54,7 @@ func init() {
 		// the model: DetIsPure / NonDetValid are invariants of MC_Codec (map iteration order explicit);
 		// replayed edges additionally check that the decoded message marshals to the model's bytes
 		mcCodecCheck(c, func(v EdgeVerdict) string { return flagIf(v.Fresh && !v.Enc, "detbytes") })
-		st := codecTraceRun(c, "pure", 8, 80, func(v CodecVerdict) bool { return v.Ev == "detn" || v.Sig == "marshal:direct-flags" })
+		st := codecTraceRun(c, "pure", 8, 200, func(v CodecVerdict) bool { return v.Ev == "detn" || v.Sig == "marshal:direct-flags" })
 		c.R.Cov["detn_events"] = st.ByEv["detn"]
 		c.R.Assumptions = append(c.R.Assumptions, "Go map iteration order is randomised per range statement; each value is marshalled 6 times for each of 5 construction histories (30 marshals), maps have up to 9 keys")
 	}})
@@ -68,7 +68,7 @@ func init() {
 			c.R.AddCount("states", res.Distinct)
 			c.R.AddCount("transitions", res.Generated)
 		}
-		codecTraceRun(c, "mem", 10, 120, func(v CodecVerdict) bool {
+		codecTraceRun(c, "mem", 10, 250, func(v CodecVerdict) bool {
 			return v.Ev == "alias_in" || v.Ev == "alias_out" || v.Ev == "readonly"
 		})
 	}})
@@ -77,7 +77,7 @@ func init() {
 		// the library algorithms drive the reflection machine: its model is checked and replayed
 		// (Range/Mutable/NewField/Append compositions), then recorded library calls are validated
 		mcReflectCheck(c, func(v ReflVerdict) bool { return !strings.HasPrefix(v.What, "nil:") })
-		codecTraceRun(c, "lib", 8, 100, func(v CodecVerdict) bool { return v.Ev == "lib" || v.Ev == "reset" })
+		codecTraceRun(c, "lib", 8, 200, func(v CodecVerdict) bool { return v.Ev == "lib" || v.Ev == "reset" })
 		// ... and every protoreflect call those algorithms make on a recording proxy is validated
 		// as a step of the reflection model, each library call as a whole against its value-level
 		// meaning (Trace_Lib.tla)
@@ -93,7 +93,7 @@ func init() {
 		mcCodecCheck(c, func(v EdgeVerdict) string {
 			return firstFlag(flagIf(!v.Disc, "discard"), flagIf(strings.HasPrefix(v.Shape, "unknown") && (!v.Fresh || !v.Merge || !v.Enc), "unknown"))
 		})
-		codecTraceRun(c, "unknown", 10, 120, func(v CodecVerdict) bool {
+		codecTraceRun(c, "unknown", 10, 250, func(v CodecVerdict) bool {
 			return v.Ev == "unmarshal" || v.Ev == "marshal" || (v.Ev == "alias_in" && v.Tag == "unknown-alias")
 		})
 		// records of every payload length / tag width / varint width are stored byte for byte
